@@ -1,7 +1,7 @@
 (* Glue between interchange values and the model: one named entry per operation.  Kept in Coq so that
    the OCaml driver stays a dumb parser/printer. *)
 From Coq Require Import NArith List Bool String.
-From DBG Require Import Interop.Val Spec.Dna Packed.KmerModel Algo.KmerHist Interop.DispatchExts Interop.DispatchSeq.
+From DBG Require Import Interop.Val Spec.Dna Packed.KmerModel Algo.KmerHist Spec.Neighbors Algo.Neighbors Interop.DispatchExts Interop.DispatchSeq.
 From DBG Require Interop.DispatchBBHash Interop.DispatchGraph.
 From DBG Require Interop.DispatchAscii.
 From DBG Require Interop.DispatchScan.
@@ -66,7 +66,8 @@ Definition kmer_ops (c : kcfg) : list (string * handler) :=
     ("k.hash_feed"%string, fun a => match a with [VN s] => Some (ofNs (hash_feed c s)) | _ => None end);
     ("k.cmp"%string, fun a => match a with [VN s1; VN s2] => Some (VL [ofbool (k_eq s1 s2); VN (cmp_code (k_cmp s1 s2))]) | _ => None end);
     (* the decoded string: the harness compares it with the bases the implementation reports *)
-    ("k.decode"%string, fun a => match a with [VN s] => Some (ofNs (decode (kK c) s)) | _ => None end)
+    ("k.decode"%string, fun a => match a with [VN s] => Some (ofNs (decode (kK c) s)) | _ => None end);
+    ("k.neighbors"%string, fun a => match a with [VN s] => Some (ofopt ofNs (nb_all_fused c s)) | _ => None end)
   ].
 
 (* the operation name is checked BEFORE the arguments are converted: `cfg_of` builds unary naturals, and an
@@ -111,7 +112,8 @@ Definition spec_kmer_ops (K : nat) : list (string * handler) :=
         | Some ds => Some (VL (map ofNs (sort_by dna_leb (if canonical =? 0 then ds else map canon ds)))) | None => None end | _ => None end);
     ("s.k.member"%string, fun a => match a with [VL ls; VL x] => match omap vNs ls, vlistN x with
         | Some ds, Some d => Some (ofbool (existsb (dna_eqb d) ds)) | _, _ => None end | _ => None end);
-    ("s.k.is_palindrome"%string, fun a => match a with [VL l] => match vlistN l with Some d => Some (ofbool (is_palindrome d)) | None => None end | _ => None end)
+    ("s.k.is_palindrome"%string, fun a => match a with [VL l] => match vlistN l with Some d => Some (ofbool (is_palindrome d)) | None => None end | _ => None end);
+    ("s.k.neighbors"%string, fun a => match a with [VL l] => match vlistN l with Some d => Some (VL (map ofNs (neighbors d))) | None => None end | _ => None end)
   ].
 Definition d_spec_kmer (op : string) (v : val) : option val :=
   if negb (prefix "s.k." op) then None else
